@@ -276,6 +276,7 @@ func (r *Raft) stateLoop() {
 		states[state].release()
 		r.release()
 	}()
+	defer verifPoint(r, "loop.exit")
 	if r.snapInterval > 0 {
 		r.snapTimer.reset(r.rtime.duration(r.snapInterval))
 	}
